@@ -1295,7 +1295,11 @@ def message_ops(ctx, per_number_valid, per_number_hostile, opname):
 class C09(Prop):
     id = "C09"
     module = "C09"
-    theorems = ["C09_no_wire_form", "C09_well_formed", "C09_field_encode_no_panic_partial"]
+    theorems = ["C09_well_formed_fresh", "C09_well_formed", "C09_no_wire_form", "C09_fits", "C09_put_no_panic"]
+    table_obligations = ["layouts_fit"]
+    partial_note = ("partial: frame shape (length 8..1029, 0xD3, six zero bits, length field, accepted by MessageFrame::new with the model's CRC-24Q) for every builder history, "
+                    "refusal of messages without a wire form, size bound and the bit writer's freedom from panics are proved; freedom from panics of the encoders above the "
+                    "bit writer and 'first 12 payload bits = message number' are covered by the ENCODE/BUILDSEQ correspondence in both build profiles and the probes")
     rule = ("ENCODE in both profiles on generated messages of all types: per field boundary / out-of-range / NaN / +-inf / huge values, empty and full lists, MSM with inconsistent "
             "satellite/signal sets and 0..70 mask cells, bias lists with wrapping counts, the three variants without a wire form; frames checked with an independent CRC; "
             "non-trivial = distinct messages")
@@ -1321,6 +1325,12 @@ class C09(Prop):
                 m[2][1][-1] = ("T", [("L", [srow(s) for s in sats]), ("L", [crow(s, sg) for s, sg in cells])])
                 ops.append("ENCODE " + vt.show_msg(m))
         ops += ["ENCODE " + m for m in long_messages(ctx)]
+        # frames of a builder that is used again (and again after a failed build)
+        fails = failing_messages(ctx)
+        for _ in range(60 if q else 3000):
+            hist = [g.gen_msg(rng.choice(g.numbers), rng.choice(["valid", "hostile"]), n=rng.choice([0, 1, 2])) if rng.random() < 0.75 else rng.choice(fails)
+                    for _ in range(rng.choice([2, 3, 4]))]
+            ops.append("BUILDSEQ " + " ".join(hist))
         if 1029 in g.layouts:
             for _ in range(40 if q else 2000):
                 k = rng.choice(["two", "bmp", "astral", "mixed"])
@@ -1335,6 +1345,16 @@ class C09(Prop):
         return "ERR" if res.startswith("ERR ") else res
 
     def probe(self, op, res, ctx):
+        if op.startswith("BUILDSEQ "):
+            msgs = op.split(" ")[1:]
+            for j, r in enumerate(res.split(" ; ")):
+                if r.startswith("PANIC"):
+                    return "build %d of a sequence on one builder panicked" % j
+                if r.startswith("OK ") and j < len(msgs) and msgs[j].startswith("VMsg") and not msgs[j].startswith("VMsgNot"):
+                    bad = frame_well_formed(unhex(r[3:]), int(msgs[j][4:msgs[j].index("(")]))
+                    if bad:
+                        return "build %d of a sequence on one builder returned a malformed frame: %s" % (j, bad)
+            return None
         m = op.split(" ")[1]
         if res.startswith("PANIC") or res.startswith("HANG") or res.startswith("CRASH"):
             return "building %s...: %s" % (m[:40], res[:10])
@@ -1738,7 +1758,23 @@ class C19(Prop):
             if users:
                 must.append(rng.choice(sorted(users)))
         must += [h["feature"] for h in t["hand_mods"]][:2] if ctx.tier == "quick" else [h["feature"] for h in t["hand_mods"]]
-        singles = feats if ctx.tier == "thorough" else sorted(set(must + rng.sample(feats, 2)))
+        # suspects first: message! rows, include_msg! rows or cfg lists that are not of the regular shape
+        suspects = set()
+        for row in t["messages"]:
+            want = "msg%d" % row["number"]
+            if row["feature"] != want or row["module"] != want or row["variant"] != "Msg%d" % row["number"]:
+                suspects |= {row["feature"], want}
+        for inc in t["includes"]:
+            if inc["feature"] != inc["module"]:
+                suspects |= {inc["feature"], inc["module"]}
+        for mod_, deps in t["uses"].items():
+            for sm in deps:
+                if mod_ not in shared.get(sm, []):
+                    suspects.add(mod_)
+        for h in t["hand_mods"]:
+            pass
+        suspects = sorted(x for x in suspects if x in feats)
+        singles = feats if ctx.tier == "thorough" else sorted(set(must + rng.sample(feats, 2) + suspects))
         tdir = os.path.join(CACHE, "target-feat")
         configs = [("empty", []), ("all_msgs", ["all_msgs"])] + [(f, [f]) for f in singles]
         serde_cfg = rng.choice(singles)
@@ -1767,7 +1803,7 @@ class C19(Prop):
             open(os.path.join(hd, "Cargo.lock"), "w").write(open(lock_src).read().replace("rtcm-verif-harness", "rtcm-verif-feat"))
         opsfile = os.path.join(ctx.workdir, "feat-ops.txt")
         open(opsfile, "w").write("\n".join(ops) + "\n")
-        cmp_feats = singles if ctx.tier == "thorough" else rng.sample(singles, 2)
+        cmp_feats = singles if ctx.tier == "thorough" else sorted(set(rng.sample(singles, 2) + suspects))
         self.compared = 0
         for f in cmp_feats + ["__none__"]:
             fl = [] if f == "__none__" else [f]
